@@ -803,6 +803,17 @@ static ares_status_t process_answer(ares_channel_t      *channel,
     goto cleanup;
   }
 
+  /* The response must arrive on the connection the query is currently
+   * assigned to.  A query that was re-sent (to another server, on a fresh UDP
+   * socket, or over TCP after truncation) no longer listens on the previous
+   * connection; accepting a late or spoofed packet there would bypass the
+   * source port/address, 0x20 and DNS cookie checks that apply to the current
+   * transmission. */
+  if (query->conn != conn) {
+    status = ARES_SUCCESS;
+    goto cleanup;
+  }
+
   /* Both the query id and the questions must be the same. We will drop any
    * replies that aren't for the same query as this is considered invalid. */
   if (!same_questions(query, rdnsrec)) {
